@@ -96,14 +96,8 @@ class Instance:
         self.changed_by_first_serialize = None
         if self.snap != before:
             self.changed_by_first_serialize = f"the first serialization changed the instance's observable state: {before[:300]} -> {self.snap[:300]}"
-        elif p.kind == "packet" and hasattr(obj, "write"):
-            W = loader.lib("eolib.data.eo_writer").EoWriter
-            try:
-                obj.write(W())
-            except Exception:  # noqa: BLE001 - judged by the write histories
-                pass
-            if self.snapshot() != before:
-                self.changed_by_first_serialize = f"the first write() changed the instance's observable state: {before[:300]} -> {self.snapshot()[:300]}"
+        # (no write() here: an instance's FIRST write belongs to the histories - into a shared writer that keeps growing -
+        # and every operation of a history ends with the same state comparison)
 
     def _build(self, cls, unit, val):
         # like Adaptor.build but keeps the list objects handed to the top-level constructor
